@@ -314,7 +314,7 @@ def gumbel_sigmoid(logits, tau=1.0, hard=False, threshold=0.5):
     logistic_noise = torch.log(U + 1e-20) - torch.log(1 - U + 1e-20)
 
     # Soft sample
-    y_soft = torch.sigmoid((logits + logistic_noise) / tau)
+    y_soft = torch.sigmoid((logits + logistic_noise) / _representable_tau(tau, logits))
 
     if hard:
         # Straight-through estimator. y_soft > threshold  <=>  logits + noise > tau * logit(threshold); comparing there is
@@ -333,10 +333,16 @@ def _check_temperature(tau):
     if not 0 < tau < math.inf:
         raise ValueError("Temperature must be positive and finite")
 
+def _representable_tau(tau, like):
+    # a positive temperature below the smallest positive number of the tensor's dtype (1e-46 in float32) is rounded to 0 when it
+    # meets the tensor, and x / 0 is NaN at x = 0: divide by that smallest positive number instead (x / tau is 0 or +-inf either way)
+    info = torch.finfo(like.dtype)
+    return max(tau, info.tiny * info.eps)
+
 def _softmax_tau(logits, tau):
     # softmax(logits / tau), with the largest logit subtracted before the division: logits / tau overflows to inf for a
     # temperature near the smallest float (1e-38) and softmax(inf, ...) is NaN, while (logits - max) / tau is at most 0
-    return torch.nn.functional.softmax((logits - logits.max(-1, keepdim=True)[0]) / tau, dim=-1)
+    return torch.nn.functional.softmax((logits - logits.max(-1, keepdim=True)[0]) / _representable_tau(tau, logits), dim=-1)
 
 def soft_raw(logits, tau=1.0):
     _check_temperature(tau)
@@ -371,11 +377,11 @@ def hard_raw(logits, tau=1.0):
 
 def soft_walsh(logits, tau=1.0):
     _check_temperature(tau)
-    return torch.sigmoid(logits / tau)
+    return torch.sigmoid(logits / _representable_tau(tau, logits))
 
 def hard_walsh(logits, tau=1.0):
     _check_temperature(tau)
-    x = torch.sigmoid(logits / tau)
+    x = torch.sigmoid(logits / _representable_tau(tau, logits))
     # threshold the form itself: sigmoid(logits / tau) rounds to exactly 0.5 for tiny positive logits / tau
     x = (logits > 0).to(torch.float32) - x.detach() + x
     return x
